@@ -119,6 +119,11 @@ func init() {
 		in.mapOrderNondet = true
 		return nil
 	})
+	reg(ndPkg+".AbstractArith", func(in *Interp, fn *ssa.Function, a []Value) Value {
+		in.abstractArith = true
+		in.ex.noteStub("abstract-arithmetic pre-pass: bvmul/div/rem as uninterpreted functions to prove unsat and to over-approximate branch feasibility; every sat verdict is re-decided with the exact bit-vector semantics")
+		return nil
+	})
 	reg(ndPkg+".Note", func(in *Interp, fn *ssa.Function, a []Value) Value { return nil })
 	reg(ndPkg+".IsConcrete64", func(in *Interp, fn *ssa.Function, a []Value) Value {
 		return in.st.Bool(a[0].(*Term).IsConst())
@@ -326,6 +331,7 @@ func init() {
 	registerBig(reg)
 	registerTime(reg)
 	registerMisc(reg)
+	registerBinary(reg)
 }
 
 func concreteF1(f func(float64) float64) intrinsic {
